@@ -67,7 +67,7 @@ def variants(with_disc):
     return out
 
 
-ENVS = ("nothing", "tag", "tagU", "peerT", "peerI", "reader", "ioerror", "unsupported")
+ENVS = ("nothing", "tag", "tagU", "tagX", "peerT", "peerI", "reader", "ioerror", "unsupported")
 
 
 def grid(kmax, tmax):
@@ -100,7 +100,8 @@ def cfg_id(c):
             return c["su"][o][0]
         return "k%d%d%d" % (c["disc"][o], c["conn"][o], c["rel"][o])
     return "%s.%s.%s|b%d|%s|%s%s%d|t%d" % (ov("rdwr"), ov("llcp"), ov("card"), c["beep"], c["role"], c["env"],
-                                            c.get("ttype", "") if c["env"] in ("tag", "tagU") else "", c["k"], c["termAt"])
+                                            (c.get("ttype", "") + ("!%(cls)s@%(at)d%(mode)s" % c["fault"] if c.get("fault") else ""))
+                                            if c["env"] in TAG_ENVS else "", c["k"], c["termAt"])
 
 
 # ------------------------------------------------------------------------------------------------
@@ -136,13 +137,23 @@ class NoListen(clfdev.Nothing):
         raise dev.ns.UnsupportedTargetError("simulated: this device cannot listen")
 
 
-TAG_TYPES = {"T1": clfdev.T1Tag, "T2": clfdev.T2Tag, "T3": clfdev.T3Tag, "T4": clfdev.T4Tag}
+TAG_TYPES = {"T1": clfdev.T1Tag, "T2": clfdev.T2Tag, "T2N": lambda k: clfdev.T2Tag(k, nxp=True), "T3": clfdev.T3Tag,
+             "T4": clfdev.T4Tag, "T4B": clfdev.T4BTag}
+TAG_BRTY = {"T3": "212F", "T4B": "106B"}
+TAG_ENVS = ("tag", "tagU", "tagX")
+FAULTS = {"Timeout": nfc.clf.TimeoutError, "Transmission": nfc.clf.TransmissionError,
+          "Protocol": nfc.clf.ProtocolError, "BrokenLink": nfc.clf.BrokenLinkError}
+
+
+def fault_combos():
+    """every CommunicationError subclass x position of the exchange inside the activation x once / from then on"""
+    return [dict(cls=c, at=a, mode=m) for c in sorted(FAULTS) for a in (1, 2, 3, 4) for m in ("once", "always")]
 
 
 def make_env(name, k, ttype="T2"):
     if name == "nothing":
         return clfdev.Nothing()
-    if name == "tag":
+    if name in ("tag", "tagX"):
         return TAG_TYPES[ttype](k)
     if name == "tagU":
         return NoListen(TAG_TYPES[ttype](k))
@@ -174,8 +185,13 @@ class ConnectRun(object):
         self.phase = ""
         self.in_llc = False
         self.in_term = False
+        self.activating = False     # inside nfc.tag.activate(): between on-discover and on-connect / the next step
+        self.nact = 0               # exchanges (commands and re-senses) of the current activation
+        self.fault_fired = False
         self.dev = clfdev.SimDevice(nfc.clf, make_env(cfg["env"], cfg["k"], cfg.get("ttype", "T2")), clock)
         self.dev.observer = self.on_driver
+        if cfg.get("fault"):
+            self.dev.fault_hook = self.fault
         self.clf = nfc.clf.ContactlessFrontend()
         self.clf.device = self.dev
         self.clf.sense = self.sense
@@ -191,8 +207,29 @@ class ConnectRun(object):
         self.ncb += 1
         self.emit(name, o, r)
 
+    def set_activating(self, v):
+        self.activating = v
+        self.nact = 0
+        self.dev.counting = not v     # the tag's presence budget is not used up by the activation sequence
+
+    def fault(self, data):
+        """disturb the n-th exchange of the tag activation (env tagX)"""
+        if not self.activating:
+            return None
+        f = self.cfg["fault"]
+        self.nact += 1
+        if f["mode"] == "always":
+            hit = self.nact >= f["at"]
+        else:
+            hit = self.nact == f["at"] and not self.fault_fired
+        if hit:
+            self.fault_fired = True
+            return FAULTS[f["cls"]]("injected at activation exchange %d" % self.nact)
+        return None
+
     # --- observation points -----------------------------------------------------------------------
     def terminate(self):
+        self.set_activating(False)
         v = self.polls >= self.cfg["termAt"]
         self.polls += 1
         if self.polls > self.cfg["termAt"] + 40:
@@ -201,7 +238,7 @@ class ConnectRun(object):
         return v
 
     def sense(self, *targets, **options):
-        if self.in_llc:
+        if self.in_llc or self.activating:        # a tag module re-selects the tag during activation
             return nfc.clf.ContactlessFrontend.sense(self.clf, *targets, **options)
         try:
             t = nfc.clf.ContactlessFrontend.sense(self.clf, *targets, **options)
@@ -218,6 +255,7 @@ class ConnectRun(object):
         return t
 
     def listen(self, target, timeout):
+        self.set_activating(False)
         if self.in_llc:
             return nfc.clf.ContactlessFrontend.listen(self.clf, target, timeout)
         try:
@@ -249,6 +287,7 @@ class ConnectRun(object):
 
         def activate(mac, **kw):
             role = "initiator" if isinstance(mac, nfc.dep.Initiator) else "target"
+            self.set_activating(False)
             self.in_llc = True
             try:
                 ok = orig_activate(mac=mac, **kw)
@@ -282,6 +321,7 @@ class ConnectRun(object):
 
         def recorder(name, o, table, after=None):
             def f(obj):
+                self.set_activating(False)
                 v = table[o]
                 self.cb(name, o, B(v))
                 if after:
@@ -305,8 +345,9 @@ class ConnectRun(object):
             def su_rdwr(targets):
                 self.cb("Startup", "rdwr", c["su"]["rdwr"])
                 return {"keep": targets, "drop": [], "wrong": ["106A"]}[c["su"]["rdwr"]]
-            kw["rdwr"] = {"targets": ["212F" if (c["env"] in ("tag", "tagU") and c.get("ttype") == "T3") else "106A"], "iterations": 1, "interval": 0.0, "on-startup": su_rdwr,
-                          "on-discover": recorder("Discover", "rdwr", c["disc"]),
+            kw["rdwr"] = {"targets": [TAG_BRTY.get(c.get("ttype"), "106A") if c["env"] in TAG_ENVS else "106A"],
+                          "iterations": 1, "interval": 0.0, "on-startup": su_rdwr,
+                          "on-discover": recorder("Discover", "rdwr", c["disc"], self.set_activating),
                           "on-connect": recorder("Connect", "rdwr", c["conn"], phase_setter("presence")),
                           "on-release": release("rdwr"), "beep-on-connect": c["beep"]}
         if c["has"]["llcp"]:
@@ -654,17 +695,32 @@ def run(tier, seed):
             c["k"] = 0 if c["env"] in ("nothing", "ioerror", "unsupported") else rnd.randint(0, 9)
             c["termAt"] = rnd.randint(0, 25)
             todo.append(c)
-    # "tag of each type": the rdwr branch runs against Type 1/2/3/4 tags (one type per configuration, rotating;
-    # thorough: all four for the configurations with rdwr alone)
+    # "tag of each type": the rdwr branch runs against Type 1 / 2 / 2 (NXP, vendor probing) / 3 / 4A / 4B tags (one type
+    # per configuration, rotating; thorough: all for the configurations with rdwr alone).  Environment tagX: every
+    # CommunicationError subclass at every exchange position of the activation, once or persistently (rotating
+    # over the grid, plus a complete sweep over all types x faults for the rdwr-only configurations below).
+    types, combos = sorted(TAG_TYPES), fault_combos()
     typed, n = [], 0
     for c in todo:
-        if c["env"] in ("tag", "tagU") and c["has"]["rdwr"] and c["su"]["rdwr"] == "keep":
+        if c["env"] in TAG_ENVS and c["has"]["rdwr"] and c["su"]["rdwr"] == "keep":
             n += 1
             one = quick or sum(1 for o in OPTS if c["has"][o]) > 1
-            for tt in ((sorted(TAG_TYPES)[n % 4],) if one else sorted(TAG_TYPES)):
-                typed.append(dict(c, ttype=tt))
+            for tt in ((types[n % len(types)],) if one else types):
+                c2 = dict(c, ttype=tt)
+                if c["env"] == "tagX":
+                    c2["fault"] = combos[(n * 7 + types.index(tt)) % len(combos)]
+                typed.append(c2)
+        elif c["env"] == "tagX":
+            typed.append(dict(c, ttype="T2", fault=combos[0]))
         else:
             typed.append(c)
+    absent = variants(True)[0]
+    bases = [v for v in variants(True) if v["has"] and v["su"] == "keep" and v["disc"]]
+    for r in (bases if not quick else [b for b in bases if b["rel"]]):
+        for k, t in (((1, 3),) if quick else ((0, 2), (1, 3), (2, 6))):
+            for tt in types:
+                for f in combos:
+                    typed.append(dict(mkcfg(r, absent, absent, True, "both", "tagX", k, t), ttype=tt, fault=f))
     todo = typed
     traces, seen = [], set()
     with Timeshift() as ts:
